@@ -489,9 +489,9 @@ func (i *Interface) SetAbsoluteExpiry(key string, time int64) error {
 	r.Lock()
 	defer r.Unlock()
 
-	i.options.Apply(r)
-	r.Meta().SetAbsoluteExpiry(time)
-	return db.Put(r)
+	return i.putModified(db, r, func(m *record.Meta) {
+		m.SetAbsoluteExpiry(time)
+	})
 }
 
 // SetRelativateExpiry sets a relative (self-updating) record expiry.
@@ -504,9 +504,9 @@ func (i *Interface) SetRelativateExpiry(key string, duration int64) error {
 	r.Lock()
 	defer r.Unlock()
 
-	i.options.Apply(r)
-	r.Meta().SetRelativateExpiry(duration)
-	return db.Put(r)
+	return i.putModified(db, r, func(m *record.Meta) {
+		m.SetRelativateExpiry(duration)
+	})
 }
 
 // MakeSecret marks the record as a secret, meaning interfacing processes, such as an UI, are denied access to the record.
@@ -519,9 +519,9 @@ func (i *Interface) MakeSecret(key string) error {
 	r.Lock()
 	defer r.Unlock()
 
-	i.options.Apply(r)
-	r.Meta().MakeSecret()
-	return db.Put(r)
+	return i.putModified(db, r, func(m *record.Meta) {
+		m.MakeSecret()
+	})
 }
 
 // MakeCrownJewel marks a record as a crown jewel, meaning it will only be accessible locally.
@@ -534,9 +534,9 @@ func (i *Interface) MakeCrownJewel(key string) error {
 	r.Lock()
 	defer r.Unlock()
 
-	i.options.Apply(r)
-	r.Meta().MakeCrownJewel()
-	return db.Put(r)
+	return i.putModified(db, r, func(m *record.Meta) {
+		m.MakeCrownJewel()
+	})
 }
 
 // Delete deletes a record from the database.
@@ -551,14 +551,33 @@ func (i *Interface) Delete(key string) error {
 		return ErrReadOnly
 	}
 
+	return i.putModified(db, r, func(m *record.Meta) {
+		m.Delete()
+
+		// Remove the record from the cache, or the interface would keep serving
+		// the deleted record from there.
+		i.updateCache(r, true, true, 0)
+	})
+}
+
+// putModified applies the interface options and the given change to the
+// metadata of a record that was loaded from the database and puts it back.
+// If the put is refused, eg. by a hook, the change is undone, as the storage
+// may hold this very object.
+func (i *Interface) putModified(db *Controller, r record.Record, change func(m *record.Meta)) error {
+	var before record.Meta
+	if m := r.Meta(); m != nil {
+		before = *m
+	}
+
 	i.options.Apply(r)
-	r.Meta().Delete()
+	change(r.Meta())
 
-	// Remove the record from the cache, or the interface would keep serving
-	// the deleted record from there.
-	i.updateCache(r, true, true, 0)
-
-	return db.Put(r)
+	err := db.Put(r)
+	if err != nil {
+		*r.Meta() = before
+	}
+	return err
 }
 
 // Query executes the given query on the database.
